@@ -713,6 +713,33 @@ fn illegal_releases_after_panic(env: &Env, tid: Tid, n0: usize, what: &str) {
 	}
 }
 
+/// C03: a raw operation (user code: the raw lock) found the thread's key
+/// obtainable while the thread held locks that it did not leak on purpose
+fn key_free_findings(env: &Env, n0: usize) {
+	let notices = env.exec.notices();
+	for n in &notices[n0.min(notices.len())..] {
+		if let Notice::KeyFreeWhileHolding { tid, lid, op, frame, held } = n {
+			let bg = expected_background(env, *tid);
+			let extra: Vec<(Lid, bool)> = held.iter().filter(|h| !bg.contains(h)).cloned().collect();
+			if extra.is_empty() {
+				continue;
+			}
+			let what = env.exec.frame_label(*frame);
+			env.finding(
+				"C03",
+				*tid,
+				format!("key-obtainable-while-holding|{}|{}", first_words(&what), if op.is_release() { "release" } else { "acquire" }),
+				format!(
+					"inside {} on L{lid} (issued by {what}) ThreadKey::get() hands out this thread's key while the thread still holds {}: a raw lock, which is user code, can start a new acquisition there",
+					op.short(),
+					fmt_held(&extra)
+				),
+			);
+			return;
+		}
+	}
+}
+
 fn illegal_release_findings(env: &Env, n0: usize) {
 	let notices = env.exec.notices();
 	for n in &notices[n0.min(notices.len())..] {
@@ -1000,6 +1027,7 @@ pub fn run_step(env: &Env, ctx: &mut ThreadCtx, idx: usize, step: &Step) -> Step
 		}
 	}
 	illegal_release_findings(env, n0);
+	key_free_findings(env, n0);
 	if env.opts.faults {
 		let end = env.exec.trace_len();
 		let held_after = env.exec.held_by(tid);
